@@ -324,6 +324,117 @@ def write_replay(pid, sub, sig, msg, case, committed=False):
     return path
 
 
+def _repo_modules(src):
+    out = []
+    root = os.path.join(src, "cogent3")
+    for dp, _dn, fn in os.walk(root):
+        for f in fn:
+            if f.endswith(".py"):
+                rel = os.path.relpath(os.path.join(dp, f), src)[:-3].replace(os.sep, ".")
+                out.append(rel[:-9] if rel.endswith(".__init__") else rel)
+    return sorted(out)
+
+
+def _fuzz_job(args, fout):
+    """Coverage-guided campaign (atheris/libFuzzer) over one sub-check: libFuzzer mutates the byte
+    buffer from which Hypothesis draws the case (`fuzz_one_input`), so generator, oracle, bucketing
+    and known-finding exclusion are exactly those of the plain run; only the search is guided by
+    branch coverage of the instrumented cogent3 modules. Runs in its own interpreter and ends with
+    os._exit after writing the pickled result (libFuzzer never returns)."""
+    import pickle
+    import random
+    import shutil
+    import tempfile
+
+    _tag, pid, subname, tier, seed, execs, budget_s, targets = args
+    os.environ["VERIF_IN_WORKER"] = "1"
+    t0 = time.monotonic()
+    deadline = t0 + budget_s
+    state = {"n": 0, "done": False}
+    rec = None
+    corpus = tempfile.mkdtemp(prefix="corpus.", dir=os.path.join(ROOT, ".scratch"))
+
+    def finish(note=None):
+        if state["done"]:
+            return
+        state["done"] = True
+        out = rec.export() if rec is not None else Recorder(None, pid).export()
+        if note:
+            out["harness_errors"] = list(out["harness_errors"]) + [note]
+        try:
+            ncorp = len(os.listdir(corpus))
+        except OSError:
+            ncorp = 0
+        out.update(sub=subname, seed=0, n=0, wall=time.monotonic() - t0)
+        out["fuzz"] = {"sub": subname, "executions": state["n"], "valid_cases": int(out.get("cases", 0)), "corpus": ncorp, "libfuzzer_seed": seed, "instrumented": list(targets)}
+        with open(fout, "wb") as f:
+            pickle.dump(out, f)
+        shutil.rmtree(corpus, ignore_errors=True)
+        sys.stdout.flush()
+        os._exit(0)
+
+    try:
+        sys.path.insert(0, os.path.join(ROOT, ".deps"))
+        import atheris
+    except Exception as e:  # noqa: BLE001
+        rec = Recorder(find_module(pid), pid)
+        state["skipped"] = True
+        out = rec.export()
+        out.update(sub=subname, seed=0, n=0, wall=0.0)
+        out["fuzz"] = {"sub": subname, "executions": 0, "skipped": f"atheris not importable: {e!r}"}
+        with open(fout, "wb") as f:
+            pickle.dump(out, f)
+        shutil.rmtree(corpus, ignore_errors=True)
+        os._exit(0)
+    try:
+        src = os.environ.get("VERIF_REPO_SRC", "/repo/src")
+        mods = _repo_modules(src)
+        want = [m for m in mods if any(m == t or m.startswith(t + ".") for t in targets)]
+        excl = [m for m in mods if m not in want]
+        with atheris.instrument_imports(include=["cogent3"], exclude=excl):
+            import cogent3  # noqa: F401
+
+            for m in want:
+                importlib.import_module(m)
+        mod = find_module(pid)
+        rec = Recorder(mod, pid)
+        sub = next(s_ for s_ in mod.SUBS if s_.name == subname)
+        if hasattr(mod, "worker_setup"):
+            mod.worker_setup()
+        from hypothesis import given
+
+        @_settings(10**9)
+        @given(sub.get_strategy(tier))
+        def t(case):
+            rec.run_case(sub, case)
+
+        rng = random.Random(seed)
+        for i in range(8):
+            with open(os.path.join(corpus, f"seed{i}"), "wb") as f:
+                f.write(bytes(rng.getrandbits(8) for _ in range(2048)))
+
+        def one(buf):
+            state["n"] += 1
+            try:
+                t.hypothesis.fuzz_one_input(buf)
+            except HarnessError as e:
+                finish(f"{subname} (fuzz): {e}")
+            except BaseException:  # noqa: BLE001
+                finish(f"{subname} (fuzz): " + traceback.format_exc())
+            if state["n"] >= execs or time.monotonic() > deadline:
+                if time.monotonic() > deadline:
+                    rec.budget_hit = True
+                finish()
+
+        atheris.Setup([sys.argv[0], f"-seed={seed}", "-max_len=8192", "-len_control=0", "-rss_limit_mb=6000", "-timeout=3600", corpus], one)
+        atheris.Fuzz()
+        finish()
+    except SystemExit:
+        raise
+    except BaseException:  # noqa: BLE001
+        finish(f"{subname} (fuzz setup): " + traceback.format_exc())
+
+
 def main(argv=None):
     argv = sys.argv[1:] if argv is None else argv
     if argv and argv[0] == "--job":
@@ -331,6 +442,9 @@ def main(argv=None):
 
         with open(argv[1], "rb") as f:
             job_args = pickle.load(f)
+        if job_args and job_args[0] == "FUZZ":
+            _fuzz_job(job_args, argv[2])  # does not return
+            return 2
         out = _job(job_args)
         with open(argv[2], "wb") as f:
             pickle.dump(out, f)
@@ -453,6 +567,33 @@ def main(argv=None):
             _merge(merged, r)
             harness_errors.extend(r["harness_errors"])
 
+    # ------------------------------------------------- coverage-guided campaigns
+    fuzz_stats = []
+    fz = getattr(mod, "FUZZ", None)
+    want_fuzz = fz and (a.tier == "thorough" or os.environ.get("VERIF_FUZZ") == "1") and os.environ.get("VERIF_FUZZ") != "0"
+    if want_fuzz:
+        fsubs = [s for s in subs if s.name in fz["subs"] and s.strategy is not None]
+        per = int(fz.get("execs_thorough" if a.tier == "thorough" else "execs_quick", 20000) * a.scale)
+        nj = int(fz.get("jobs_thorough" if a.tier == "thorough" else "jobs_quick", 4))
+        fjobs = []
+        for s in fsubs:
+            budget = s.budget_quick_s if a.tier == "quick" else s.budget_thorough_s
+            for k in range(nj):
+                fjobs.append(("FUZZ", pid, s.name, a.tier, 1 + _seed_for(seed, "fuzz/" + s.name, k) % (2**31 - 2), max(1, per), budget, list(fz["targets"])))
+        if fjobs:
+            os.makedirs(os.path.join(ROOT, ".scratch"), exist_ok=True)
+            with cf.ThreadPoolExecutor(max_workers=max(1, min(a.jobs, len(fjobs)))) as ex:
+                futs = [ex.submit(_run_job_subprocess, j) for j in fjobs]
+                for f in futs:
+                    try:
+                        r = f.result()
+                    except Exception:
+                        harness_errors.append("fuzz job failed: " + traceback.format_exc())
+                        continue
+                    fuzz_stats.append(r.get("fuzz", {}))
+                    _merge(merged, r)
+                    harness_errors.extend(r["harness_errors"])
+
     # ------------------------------------------------------------- reporting
     known = load_known(pid)
     for e in known:
@@ -508,6 +649,16 @@ def main(argv=None):
             "wall_s": round(wall, 2),
             "violations": len(violations),
         }
+        if fuzz_stats:
+            ev["coverage"]["coverage_guided"] = {
+                "engine": "atheris/libFuzzer driving the Hypothesis strategy (fuzz_one_input)",
+                "campaigns": len(fuzz_stats),
+                "executions": int(sum(f.get("executions", 0) for f in fuzz_stats)),
+                "valid_cases": int(sum(f.get("valid_cases", 0) for f in fuzz_stats)),
+                "corpus_entries": int(sum(f.get("corpus", 0) for f in fuzz_stats)),
+                "instrumented": sorted({m for f in fuzz_stats for m in f.get("instrumented", [])}),
+                "skipped": sorted({f["skipped"] for f in fuzz_stats if f.get("skipped")}),
+            }
         if harness_errors:
             ev["coverage"]["harness_errors"] = [h[:500] for h in harness_errors[:5]]
         os.makedirs(os.path.join(ROOT, "evidence"), exist_ok=True)
@@ -518,6 +669,7 @@ def main(argv=None):
         f"{pid} tier={a.tier} seed={seed} cases={merged['cases']} evaluations={merged['evals']} "
         f"nontrivial={len(merged['nontrivial'])} violations={len(violations)} "
         f"known_excluded={sum(merged['known_hits'].values())} wall={wall:.1f}s"
+        + (f" fuzz_executions={sum(f.get('executions', 0) for f in fuzz_stats)}" if fuzz_stats else "")
         + (" BUDGET-EXHAUSTED(inconclusive for remainder)" if merged["budget_hit"] else "")
     )
     for h in harness_errors[:5]:
